@@ -77,7 +77,7 @@ pub fn run(thorough: bool, mut rng: Rng, mut out: Out) {
             out.r(&format!("leaks.corpus {}", name), clean, &format!("{} | {}", d, ev));
         }
     }
-    let n = if thorough { 20000 } else { 2000 };
+    let n = if thorough { 80000 } else { 2000 };
     for k in 0..n {
         let n_ops = rng.range(3, if thorough { 40 } else { 14 }) as usize;
         let script = gen_script_ex(&mut rng, n_ops, false, k % 2 == 0, true, k % 4 == 1);
@@ -92,7 +92,7 @@ pub fn run(thorough: bool, mut rng: Rng, mut out: Out) {
         out.r(&format!("leaks.quiescent-state-empty script#{}", k), clean, &format!("{} | {}", d, ev));
     }
     // soak: many operations on one connection, table size stays O(outstanding)
-    let soak = if thorough { 20000 } else { 2000 };
+    let soak = if thorough { 100000 } else { 2000 };
     let mut steps = vec![];
     for i in 0..soak {
         let id = i as i64 + 1;
